@@ -242,7 +242,17 @@ def gnu_hash_form(F, rep, rule="hash-function"):
     lf = linear_form(step, {h: "h", byte: "c"})
     rep.require(lf == {"h": 33, "c": 1}, rule, "gnu_hash:step", w, "h' = h*33 + c (mod 2^32), byte zero-extended",
                 "gnu_hash step is %s (ring normal form %s); the GNU hash is h*33 + c with a zero-extended byte, wrapping" % (pp(step)[:200], lf))
-    rep.require(rt is h, rule, "gnu_hash:result", w, "returns the accumulator unchanged", "gnu_hash returns %s" % pp(rt))
+    okr = rt is h
+    if not okr and rt is not None and rt.op == "phi":
+        # an early `return SEED` for the empty name: the fold over no bytes is the seed
+        okr = True
+        for t_, st_ in an.ret_leaves() or []:
+            t2_ = t_
+            if t2_ is not h and not (t2_.op == "call" and t2_.args[0].endswith("Iterator::fold")):
+                empty = an.truth(st_.facts, T.bin("Eq", T.length(T.param(1)), T.const("usize", 0), "usize"))
+                if not (t2_ is seed and empty is True):
+                    okr = False
+    rep.require(okr, rule, "gnu_hash:result", w, "returns the accumulator unchanged", "gnu_hash returns %s" % pp(rt))
 
 
 def sysv_hash_form(F, rep, rule="hash-function"):
